@@ -7,6 +7,7 @@ and `Quiescent` is raised out of run_forever()/run_until_complete().
 """
 import asyncio
 import contextvars
+import heapq
 import selectors
 import time as _real_time
 import types
@@ -92,6 +93,82 @@ class VirtualLoop(asyncio.SelectorEventLoop):
 
     def time(self):
         return self._vclock.now
+
+    # A re-entrancy-safe rendering of BaseEventLoop._run_once (no debug/slow-callback logging). It is needed because
+    # run_executor_work() below runs ready callbacks from *inside* a callback (an actor handler) to model thread pre-emption.
+    def _run_once(self):
+        sched = self._scheduled
+        while sched and sched[0]._cancelled:
+            self._timer_cancelled_count -= 1
+            h = heapq.heappop(sched)
+            h._scheduled = False
+        timeout = None
+        if self._ready or self._stopping:
+            timeout = 0
+        elif sched:
+            timeout = min(max(0, sched[0]._when - self.time()), 24 * 3600)
+        event_list = self._selector.select(timeout)
+        self._process_events(event_list)
+        end_time = self.time() + self._clock_resolution
+        while sched and sched[0]._when < end_time:
+            h = heapq.heappop(sched)
+            h._scheduled = False
+            self._ready.append(h)
+        for _ in range(len(self._ready)):
+            if not self._ready:
+                break
+            h = self._ready.popleft()
+            if h._cancelled:
+                continue
+            h._run()
+        h = None
+
+    def run_executor_work(self, until, is_actor_event):
+        """
+        Pre-emption point: called from inside an actor handler. Runs everything that is not an actor event (i.e. the work of
+        executor threads: task steps, sleeps that end) and is due not later than `until`, advancing the virtual clock as needed.
+        Actor events (message deliveries, wake-ups) stay queued: an actor never handles two messages at once, and deliveries to
+        other actors are merely delayed a little, which Thespian allows.
+        """
+        ran = 0
+        postponed = []
+        while True:
+            progressed = False
+            # ready callbacks: drain completely before the clock may move on
+            while self._ready:
+                h = self._ready.popleft()
+                if h._cancelled:
+                    continue
+                if is_actor_event(h):
+                    postponed.append(h)
+                    continue
+                h._run()
+                ran += 1
+                progressed = True
+            # timers due within the window
+            sched = self._scheduled
+            keep = []
+            while sched and sched[0]._when <= until:
+                h = heapq.heappop(sched)
+                if h._cancelled:
+                    self._timer_cancelled_count -= 1
+                    h._scheduled = False
+                    continue
+                if is_actor_event(h):
+                    keep.append(h)
+                    continue
+                h._scheduled = False
+                self._vclock.now = max(self._vclock.now, h._when)
+                self._ready.append(h)
+                progressed = True
+                break
+            for h in keep:
+                heapq.heappush(sched, h)
+            if not progressed:
+                break
+        for h in postponed:
+            self._ready.append(h)
+        return ran
 
     # In production every worker process owns its event loop, and AsyncIoAdapter.run() closes *that* loop's asynchronous generators
     # when its clients are done. All simulated processes share this loop, so generators are tracked per simulated process.
